@@ -77,6 +77,39 @@ fn check_one<T: FftNum + ToPrimitive + FromPrimitive + PartialEq>(kind: Kind, ty
     }
 }
 
+fn reuse_sweep<T: FftNum>(kind: Kind, tyname: &str, order: &[usize], rep: &mut Report) {
+    let mut p = match AnyPlanner::<T>::new(kind) {
+        Some(p) => p,
+        None => return,
+    };
+    for (i, &n) in order.iter().enumerate() {
+        let dir = if i % 3 == 0 { FftDirection::Inverse } else { FftDirection::Forward };
+        rep.evaluations += 1;
+        if n >= 2 {
+            rep.nontrivial += 1;
+        }
+        let tag = format!("reused-planner {}/{}/{}/{} (request #{})", kind.name(), tyname, n, dir_name(dir), i);
+        match catch(std::panic::AssertUnwindSafe(|| {
+            let f = p.plan(n, dir);
+            (f.len(), f.fft_direction())
+        })) {
+            Err(e) => {
+                rep.fail(format!("plan-panic {}", tag), e);
+                // the planner may be poisoned by the unwinding: start over with a fresh one
+                p = AnyPlanner::<T>::new(kind).unwrap();
+            }
+            Ok((len, d)) => {
+                if len != n {
+                    rep.fail(format!("len {}", tag), format!("reported len {}", len));
+                }
+                if d != dir {
+                    rep.fail(format!("dir {}", tag), format!("reported {}", dir_name(d)));
+                }
+            }
+        }
+    }
+}
+
 pub fn run(args: &[String]) {
     let lo: usize = args[0].parse().unwrap();
     let hi: usize = args[1].parse().unwrap();
@@ -99,6 +132,20 @@ pub fn run(args: &[String]) {
         shared.merge(rep);
     });
     let mut rep = shared.into_inner();
+    // the same lengths again on ONE planner per (kind, type), in a pseudo-random order: history must not matter
+    {
+        let mut rng = Rng::new(seed_from_env() ^ 0x4444);
+        let mut order: Vec<usize> = ns.iter().copied().filter(|&n| n < 8192).collect();
+        for i in (1..order.len()).rev() {
+            let j = rng.below(i as u64 + 1) as usize;
+            order.swap(i, j);
+        }
+        order.truncate(3000);
+        for kind in avail() {
+            reuse_sweep::<f32>(kind, "f32", &order, &mut rep);
+            reuse_sweep::<f64>(kind, "f64", &order, &mut rep);
+        }
+    }
     rep.sample(format!("n in {}..{} plus {} structured lengths below 2^{}", lo, hi, nstruct, max_struct_bits));
     rep.print("S04-construct", "every (planner, element type, n, direction) built with catch_unwind; non-trivial = n >= 2; each tuple is distinct by construction");
 }
